@@ -180,7 +180,8 @@ def frame_body_len(I, o, node):
         return flags_contains(I, None, fl, flag, node)
 
     def ln(v):
-        if str_kind(v) != 'bytes':
+        v = I.unopt(v, node)      # a value known not to be None on this path
+        if v is None or str_kind(v) != 'bytes':
             I.raise_builtin('TypeError', node=node)
         return zint(I.str_len(v))
     U32 = 2 ** 32 - 1
@@ -318,6 +319,10 @@ def deque_len(I, recv, o, args, kwargs, node):
 def deque_getitem(I, recv, o, args, kwargs, node):
     items, hn = _dq_get(I, recv)
     i = I.int_of(args[0])
+    if I.spec_mode and not (isinstance(i, int) and i == 0):
+        # specification expressions may read any position (only the head can hold None)
+        zi = zint(i)
+        return Opt(z3.And(zbool(hn), zi == 0), items[zi])
     if not (isinstance(i, int) and i == 0):
         raise Unsupported('deque index other than 0')
     if I.spec_mode:
@@ -621,3 +626,91 @@ def decoder_decode(I, ref, o, args, kwargs, node):
     if c == 2:
         I.raise_builtin('hpack.exceptions.HPACKDecodingError', node=node)
     return hdrmodel.sym_hdrlist(I, 'hdrlist', 'decoded_headers')
+
+
+# ---------------------------------------------------------------------------
+# HTTP2-Settings header (C25).  ASSUMED about hyperframe / base64 (listed in evidence):
+#   SettingsFrame.serialize_body() is an injective function of the settings dict for identifiers 0..65535 and
+#   values 0..2**32-1 (6 bytes per entry), parse_body is its inverse and raises InvalidFrameError when the
+#   length is not a multiple of 6; base64.urlsafe_b64decode(urlsafe_b64encode(x)) == x; decoding arbitrary
+#   bytes may raise binascii.Error.
+from .bytesmodel import B as _B, blen as _blen
+_AB, _AI = z3.ArraySort(z3.IntSort(), z3.BoolSort()), z3.ArraySort(z3.IntSort(), z3.IntSort())
+ser_settings = z3.Function('ser_settings', _AB, _AI, _B)
+parse_dom = z3.Function('parse_settings_dom', _B, _AB)
+parse_val = z3.Function('parse_settings_val', _B, _AI)
+b64e = z3.Function('b64encode', _B, _B)
+b64d = z3.Function('b64decode', _B, _B)
+
+
+def settings_arrays(I, settings, node=None):
+    """(dom, values) arrays of a settings dict (DictObj with int / symbolic keys, or a symbolic map)."""
+    o = I.heap.get(settings)
+    if isinstance(o, MapObj):
+        return o.dom, o.arrays['']
+    if isinstance(o, DictObj):
+        dom, val = z3.K(z3.IntSort(), z3.BoolVal(False)), z3.K(z3.IntSort(), z3.IntVal(0))
+        for k, v in o.items.items():
+            kk = zint(I.int_of(k.e if isinstance(k, ZKey) else k))
+            dom, val = z3.Store(dom, kk, z3.BoolVal(True)), z3.Store(val, kk, zint(I.int_of(I.unopt(v, node))))
+        return dom, val
+    raise Unsupported('settings payload %r' % (settings,))
+
+
+def _settings_axioms(I):
+    if getattr(I, '_settings_axioms_done', False):
+        return
+    I._settings_axioms_done = True
+    USED_MODELS.add('assumed: hyperframe SettingsFrame.parse_body(serialize_body(s)) == s for identifiers 0..65535 and values 0..2**32-1; base64.urlsafe_b64decode(urlsafe_b64encode(x)) == x')
+    d, v, x = z3.Const('sd', _AB), z3.Const('sv', _AI), z3.Const('bx', _B)
+    I.assume(z3.ForAll([d, v], z3.And(parse_dom(ser_settings(d, v)) == d, parse_val(ser_settings(d, v)) == v),
+                       patterns=[ser_settings(d, v)]))
+    I.assume(z3.ForAll([x], b64d(b64e(x)) == x, patterns=[b64e(x)]))
+
+
+@extern_method(HF + 'SettingsFrame', 'serialize_body')
+def settings_serialize_body(I, ref, o, args, kwargs, node):
+    n = I.settings_body_len(o.fields['settings'], node)      # struct.error for values outside 0..2**32-1
+    dom, val = settings_arrays(I, o.fields['settings'], node)
+    out = SymStr('bytes', ser_settings(dom, val))
+    I.assume(_blen(out.s) == zint(n))
+    return out
+
+
+@extern_method(HF + 'SettingsFrame', 'parse_body')
+def settings_parse_body(I, ref, o, args, kwargs, node):
+    _settings_axioms(I)
+    data = I.to_abs(I.unopt_strict(args[0], node))
+    if I.branch(_blen(data) % 6 != 0, 'settings-body-length'):
+        I.raise_builtin('hyperframe.exceptions.InvalidFrameError', node=node)
+    m = I.new_sym_map('parsed_settings', None, scalar_desc='int')
+    mo = I.heap.get(m)
+    mo.dom, mo.arrays[''] = parse_dom(data), parse_val(data)
+    mo.size = I.fresh('nparsed', 'int')
+    I.assume(z3.And(mo.size >= 0, mo.size * 6 <= _blen(data)))
+    k = z3.Int('parsed!k')
+    I.assume(z3.ForAll([k], z3.Implies(z3.Select(mo.dom, k), z3.And(k >= 0, k <= 65535, z3.Select(mo.arrays[''], k) >= 0,
+                                                                       z3.Select(mo.arrays[''], k) <= 2 ** 32 - 1))))
+    o.fields['settings'] = m
+    o.fields['body_len'] = _blen(data)
+    return None
+
+
+@extern_call('base64.urlsafe_b64encode')
+def b64_encode(I, args, kwargs, node):
+    x = I.to_abs(I.unopt_strict(args[0], node))
+    out = SymStr('bytes', b64e(x))
+    I.assume(_blen(out.s) >= 0)
+    return out
+
+
+@extern_call('base64.urlsafe_b64decode')
+def b64_decode(I, args, kwargs, node):
+    _settings_axioms(I)
+    x = I.to_abs(I.unopt_strict(args[0], node))
+    ok = I.fresh('b64_wellformed', 'bool')
+    if not I.branch(ok, 'base64-decodes'):
+        I.raise_builtin('binascii.Error', node=node)
+    out = SymStr('bytes', b64d(x))
+    I.assume(_blen(out.s) >= 0)
+    return out
